@@ -684,13 +684,51 @@ func (m *Machine) evalForm(form []Val, env *Env) []Val {
 			res = m.body(args, env)
 		}()
 		return res
+	case "recover":
+		// (recover sym on-recover forms...): a signalled condition is caught, sym bound, on-recover evaluated
+		var res []Val
+		func() {
+			defer func() {
+				if r := recover(); r != nil {
+					if le, isErr := r.(*LispError); isErr {
+						ne := NewEnv(env)
+						ne.bind(symName(args[0]), Sym("#<"+le.Class+">"))
+						res = m.eval(args[1], ne)
+						return
+					}
+					panic(r)
+				}
+			}()
+			res = m.body(args[2:], env)
+		}()
+		return res
+	case "with-mutex-lock":
+		mu := Print(args[0])
+		m.evalOne(args[0], env)
+		if m.Locked[mu] {
+			panic("refeval: generated program locks a mutex twice: " + mu)
+		}
+		m.Locked[mu] = true
+		var res []Val
+		func() {
+			defer func() { m.Locked[mu] = false }()
+			res = m.body(args[1:], env)
+		}()
+		return res
+	case "with-open-file":
+		spec := asList(args[0])
+		ne := NewEnv(env)
+		ne.bind(symName(spec[0]), Sym("#<stream>"))
+		return m.body(args[1:], ne)
+	case "make-mutex":
+		return single(Sym("#<mutex>"))
 	case "error":
 		vals := m.evalArgs(args, env)
 		msg := ""
 		if s, isStr := vals[0].(Str); isStr {
 			msg = string(s)
 		}
-		m.fail("simple-error", "%s", msg)
+		m.fail("error:"+msg, "%s", msg)
 	}
 	// macro?
 	if mac, isMacro := m.Macros[name]; isMacro {
